@@ -28,6 +28,10 @@ ASSUMPTIONS = ['the fresh-process result is the specification of a request (cold
 STL_PROGRAMS = {
     'hello': 'stl.startup\nstl.output "Hello"\nstl.loop\n',
     'hexadd': 'stl.startup_and_init_all\nhex.add 4, a, b\nhex.print_uint 4, a, 1, 0\nstl.loop\na: hex.vec 4, 0x1234\nb: hex.vec 4, 0x0F0F\n',
+    # the same library macros with the hex tables (hex.init) at another address in each program: the library's expressions over
+    # global labels must be evaluated for THIS program
+    'hex-late-init-3': 'stl.startup\nhex.add 4, a, b\nhex.sub 4, a, c\nhex.print_uint 4, a, 1, 0\nstl.loop\na: hex.vec 4, 0x1234\nb: hex.vec 4, 0x0F0F\nc: hex.vec 4, 0x0101\ndef filler {\n;\n}\nrep(3, i) filler\nhex.init\n',
+    'hex-late-init-40': 'stl.startup\nhex.add 4, a, b\nhex.sub 4, a, c\nhex.print_uint 4, a, 1, 0\nstl.loop\na: hex.vec 4, 0x1234\nb: hex.vec 4, 0x0F0F\nc: hex.vec 4, 0x0101\ndef filler {\n;\n}\nrep(40, i) filler\nhex.init\n',
     'bitrep': 'stl.startup\nrep(7, i) bit.exact_not x+i+i\nstl.loop\nx:\nbit.bit 0\n',
     'consts-n': 'n = 5\nd = 3\nstl.startup\nrep(n, i) stl.output_char \'a\' + i + d\nstl.loop\n',
     'labels-n': 'stl.startup\n;n\nn: ;d\nd: stl.loop\n',
